@@ -21,7 +21,7 @@ theorem announced_hdr (n : Nat) (h : n ≤ 65535) : announced (hdr n) = n := by
   omega
 
 /-- Model-level round trip. -/
-theorem readRaw_frame (m rest : Bytes) (cs : Stream) (h13 : 13 ≤ m.length) (hmax : m.length ≤ 65535)
+theorem readRaw_frame (m rest : Bytes) (cs : Stream) (h12 : 12 ≤ m.length) (hmax : m.length ≤ 65535)
     (hcs : cs.flatten = hdr m.length ++ m ++ rest) :
     ∃ cs', readRaw cs = .ok (m, cs') ∧ cs'.flatten = rest := by
   unfold readRaw readFull
@@ -29,16 +29,17 @@ theorem readRaw_frame (m rest : Bytes) (cs : Stream) (h13 : 13 ≤ m.length) (hm
   simp only [List.nil_append] at h1
   rw [h1]
   simp only [announced_hdr m.length hmax]
-  have : ¬ m.length ≤ 12 := by omega
+  have : ¬ m.length < 12 := by omega
   simp only [this, if_false]
   obtain ⟨c2, h2, h2f⟩ := readFullAux_spec c1 m.length [] m rest h1f rfl
   simp only [List.nil_append] at h2
   exact ⟨c2, h2, h2f⟩
 
-/-- **C16 (round trip).** Writing any message of 13..65535 bytes and reading
+/-- **C16 (round trip).** Writing any message of 12..65535 bytes (12 = a bare DNS header; the
+property quantifies over 13..65535, the header-only message is covered since the repair of F18) and reading
 it back returns it unchanged, however the stream is chunked, and leaves
 exactly the bytes that followed it. -/
-theorem roundtrip (m w rest : Bytes) (cs : Stream) (h13 : 13 ≤ m.length)
+theorem roundtrip (m w rest : Bytes) (cs : Stream) (h12 : 12 ≤ m.length)
     (hw : Gen.writeRawMsgToTCP m = some w) (hcs : cs.flatten = w ++ rest) :
     ∃ cs', Gen.readRawMsgFromTCP cs = .ok (m, cs') ∧ cs'.flatten = rest := by
   rw [Refine.C16.writeRawMsgToTCP_eq] at hw
@@ -49,7 +50,7 @@ theorem roundtrip (m w rest : Bytes) (cs : Stream) (h13 : 13 ≤ m.length)
   · rename_i hle
     injection hw with hw
     subst hw
-    exact readRaw_frame m rest cs h13 (by omega) hcs
+    exact readRaw_frame m rest cs (by omega) (by omega) hcs
 
 /-- The client-side framer builds the same frame. -/
 theorem same_frame (m : Bytes) : Gen.copyMsgWithLenHdr m = Gen.writeRawMsgToTCP m := by
@@ -72,10 +73,10 @@ theorem oversize_refused (m : Bytes) :
 
 /-- **C16 (exact size, no other buffer).** Whatever the input stream, a
 successful read returns a buffer of exactly the announced length (at least
-13), the stream started with that header and that body, and the remainder is
+12, a bare DNS header), the stream started with that header and that body, and the remainder is
 untouched. -/
 theorem exact_size (cs cs' : Stream) (b : Bytes) (h : Gen.readRawMsgFromTCP cs = .ok (b, cs')) :
-    ∃ hd, hd.length = 2 ∧ b.length = announced hd ∧ 13 ≤ b.length ∧
+    ∃ hd, hd.length = 2 ∧ b.length = announced hd ∧ 12 ≤ b.length ∧
       cs.flatten = hd ++ b ++ cs'.flatten := by
   rw [Refine.C16.readRawMsgFromTCP_eq] at h
   unfold readRaw readFull at h
@@ -96,14 +97,14 @@ theorem exact_size (cs cs' : Stream) (b : Bytes) (h : Gen.readRawMsgFromTCP cs =
       refine ⟨hd, l1, l2, by omega, ?_⟩
       rw [k1, k2, List.append_assoc]
 
-/-- **C16 (garbage is an error).** A header announcing at most 12 bytes, a
+/-- **C16 (garbage is an error).** A header announcing less than 12 bytes (less than a DNS header), a
 stream shorter than a header, or a stream that ends before the announced
 length all yield an error - in the model nothing else can happen (the
 functions are total: no panic, no buffer of another size). -/
 theorem small_or_short_errors (cs : Stream) :
     (cs.flatten.length < 2 → ∃ e, Gen.readRawMsgFromTCP cs = .error e) ∧
     (∀ hd rest, cs.flatten = hd ++ rest → hd.length = 2 →
-      (announced hd ≤ 12 → Gen.readRawMsgFromTCP cs = .error .tooSmall) ∧
+      (announced hd < 12 → Gen.readRawMsgFromTCP cs = .error .tooSmall) ∧
       (rest.length < announced hd → ∃ e, Gen.readRawMsgFromTCP cs = .error e)) := by
   rw [Refine.C16.readRawMsgFromTCP_eq]
   unfold readRaw readFull
@@ -143,7 +144,7 @@ theorem frames_decode (ms : List Bytes) (hr : ∀ m ∈ ms, 13 ≤ m.length ∧ 
     | succ f =>
       have hm := hr m (by simp)
       simp only [List.map_cons, List.flatten_cons] at hcs
-      obtain ⟨cs', h1, h2⟩ := readRaw_frame m _ cs hm.1 hm.2 hcs
+      obtain ⟨cs', h1, h2⟩ := readRaw_frame m _ cs (Nat.le_of_succ_le hm.1) hm.2 hcs
       have hne : cs.flatten.isEmpty = false := by
         rw [hcs]; simp [hdr]
       unfold decodeAll
@@ -162,11 +163,11 @@ theorem all_writers_same_frame (w : Bytes) :
 /-- **C16 (server writer round trip).** What `pool.PackTCPBuffer` produces for a packed message of
 13..65535 bytes is read back unchanged by `ReadRawMsgFromTCP` under every chunking, leaving exactly
 what followed; a longer message is refused (nothing is produced). -/
-theorem packTCP_roundtrip (m f rest : Bytes) (cs : Stream) (h13 : 13 ≤ m.length)
+theorem packTCP_roundtrip (m f rest : Bytes) (cs : Stream) (h12 : 12 ≤ m.length)
     (hf : Gen.packTCPBuffer m = some f) (hcs : cs.flatten = f ++ rest) :
     ∃ cs', Gen.readRawMsgFromTCP cs = .ok (m, cs') ∧ cs'.flatten = rest := by
   rw [(all_writers_same_frame m).1] at hf
-  exact roundtrip m f rest cs h13 hf hcs
+  exact roundtrip m f rest cs h12 hf hcs
 
 theorem packTCP_oversize_refused (m : Bytes) (h : 65535 < m.length) : Gen.packTCPBuffer m = none := by
   rw [(all_writers_same_frame m).1]
@@ -181,7 +182,9 @@ example : Gen.packTCPBuffer msg13 = some (0 :: 13 :: msg13) := by decide
 example : Gen.packBuffer msg13 = msg13 := by decide
 example : Gen.writeRawMsgToTCP msg13 = some (0 :: 13 :: msg13) := by decide
 example : Gen.readRawMsgFromTCP [[0], [13, 1, 2, 3], [], [4, 5, 6, 7, 8, 9, 10, 11, 12, 13, 99]] = .ok (msg13, [[99]]) := by rfl
-example : Gen.readRawMsgFromTCP [[0, 12], msg13] = .error .tooSmall := by rfl
+example : Gen.readRawMsgFromTCP [[0, 11], msg13] = .error .tooSmall := by rfl
+/-- a frame announcing exactly a DNS header (12 bytes) is a message, not an error (F18) -/
+example : Gen.readRawMsgFromTCP [[0, 12], msg13] = .ok (msg13.take 12, [msg13.drop 12]) := by rfl
 example : Gen.readRawMsgFromTCP [[0, 14], msg13] = .error .unexpectedEOF := by rfl
 example : Gen.readRawMsgFromTCP [] = .error .eof := by rfl
 
@@ -209,7 +212,7 @@ theorem readRaw_cut (m r t : Bytes) (cs : Stream) (h13 : 13 ≤ m.length) (hmax 
     simp only [List.nil_append] at h1
     rw [h1, htake]
     simp only [announced_hdr m.length hmax]
-    have : ¬ m.length ≤ 12 := by omega
+    have : ¬ m.length < 12 := by omega
     simp only [this, if_false]
     exact readFullAux_short c1 _ [] (by rw [h1f, List.length_drop]; omega)
 
@@ -256,7 +259,7 @@ theorem serve_handles_prefix (ms : List Bytes) (hr : ∀ m ∈ ms, 13 ≤ m.leng
           have := congrArg (List.drop (2 + m.length)) h'
           rw [List.drop_append_of_le_length hn, List.drop_append_of_le_length (by omega)] at this
           rw [this, ← hlen, List.drop_length, List.nil_append]
-        obtain ⟨cs', h1, h2⟩ := readRaw_frame m (cs.flatten.drop (2 + m.length)) cs hm.1 hm.2
+        obtain ⟨cs', h1, h2⟩ := readRaw_frame m (cs.flatten.drop (2 + m.length)) cs (Nat.le_of_succ_le hm.1) hm.2
           (by rw [← htake, List.take_append_drop])
         obtain ⟨k, hk⟩ := ih (fun x hx => hr x (by simp [hx])) f cs' rest t (by rw [h2]; exact hdrop)
         exact ⟨k + 1, by simp [serve, h1, hk]⟩
@@ -291,7 +294,7 @@ theorem serve_all_without_deadline (b : Bool) (ms : List Bytes) (hr : ∀ m ∈ 
     | zero => omega
     | succ f =>
       have hm := hr m (by simp)
-      obtain ⟨cs', h1, h2⟩ := readRaw_frame m (enc tl) cs hm.1 hm.2 (by rw [hcs]; simp [enc])
+      obtain ⟨cs', h1, h2⟩ := readRaw_frame m (enc tl) cs (Nat.le_of_succ_le hm.1) hm.2 (by rw [hcs]; simp [enc])
       simp only [serve, h1]
       rw [ih (fun x hx => hr x (by simp [hx])) cs' h2 f (by simp at hf; omega)]
 
@@ -345,7 +348,7 @@ theorem doq_reply_reads_back (limit tHandler : Nat) (gs : Grants) (reply : Bytes
     (hcs : cs.flatten = doqStream false limit tHandler gs reply) :
     ∃ cs', readRaw cs = .ok (reply, cs') ∧ cs'.flatten = [] := by
   rw [doq_reply_intact limit tHandler gs reply hmax hc] at hcs
-  exact readRaw_frame reply [] cs h13 hmax (by simpa using hcs)
+  exact readRaw_frame reply [] cs (by omega) hmax (by simpa using hcs)
 
 /-- Does the stream deadline of the source bound writes, as regenerated (T2)? -/
 def srcDoqWriteBounded : Bool := Gen.Facts.c16DoqStreamDeadlineReadOnly != some true
@@ -374,11 +377,11 @@ theorem write_deadline_cuts_reply :
 /-! ### The read loop of a pipelined upstream connection: a short frame between valid frames -/
 /-- **C16 (a short frame between valid frames).** A reader that decodes frame after frame and stops at the first
 failed read (the read loop of a pipelined upstream connection, `TraditionalDnsConn.readLoop`) hands out exactly the
-frames written before a frame announcing `l ≤ 12` bytes and then fails with `tooSmall`, whatever follows the short
+frames written before a frame announcing `l < 12` bytes and then fails with `tooSmall`, whatever follows the short
 header (its body, further valid frames) and however the stream is chunked: nothing behind the short header is ever
 cut into a message. -/
 theorem frames_then_small (ms : List Bytes) (hr : ∀ m ∈ ms, 13 ≤ m.length ∧ m.length ≤ 65535)
-    (l : Nat) (hl : l ≤ 12) (rest : Bytes) :
+    (l : Nat) (hl : l < 12) (rest : Bytes) :
     ∀ (cs : Stream), cs.flatten = (ms.map (fun m => hdr m.length ++ m)).flatten ++ (hdr l ++ rest) →
       ∀ fuel, ms.length < fuel → decodeAll fuel cs = (ms, some .tooSmall) := by
   induction ms with
@@ -402,7 +405,7 @@ theorem frames_then_small (ms : List Bytes) (hr : ∀ m ∈ ms, 13 ≤ m.length 
     | succ f =>
       have hm := hr m (by simp)
       simp only [List.map_cons, List.flatten_cons, List.append_assoc] at hcs
-      obtain ⟨cs', h1, h2⟩ := readRaw_frame m _ cs hm.1 hm.2 hcs
+      obtain ⟨cs', h1, h2⟩ := readRaw_frame m _ cs (Nat.le_of_succ_le hm.1) hm.2 hcs
       have hne : cs.flatten.isEmpty = false := by
         rw [hcs]; simp [hdr]
       unfold decodeAll
@@ -418,7 +421,7 @@ def decodeSkipping : Nat → Stream → List Bytes
     match readFull c 2 with
     | .error _ => []
     | .ok (h, c') =>
-      if announced h ≤ 12 then decodeSkipping fuel c' else
+      if announced h < 12 then decodeSkipping fuel c' else
       match readFull c' (announced h) with
       | .error _ => []
       | .ok (m, c'') => m :: decodeSkipping fuel c''
